@@ -20,7 +20,7 @@ METHOD_PROP = {
     "parse": "C07", "compress_or_standardize": "C07", "expand_or_standardize": "C07",
     "compress_strict": "C07", "expand_strict": "C07", "format_curie": "C07",
 }
-OP_PROP = {"new": "C04", "mkrec": "C04", "add": "C05", "chain": "C09", "sub": "C09", "remap_curie": "C11",
+OP_PROP = {"discover": None, "new": "C04", "mkrec": "C04", "add": "C05", "chain": "C09", "sub": "C09", "remap_curie": "C11",
            "remap_uri": "C12", "rewire": "C12", "load": "C13", "upgrade": "C13", "probe": None}
 
 
@@ -408,7 +408,7 @@ def random_oplists(pid, rng, n):
                 # derive from derived converters, mutate ANY converter afterwards: every live converter is re-observed after every step
                 est = nconv + 2          # optimistic estimate of the number of live converters (ops on missing ones are skipped)
                 for _ in range(rng.randrange(2, 5)):
-                    kind = rng.choice(["chain", "sub", "remap_curie", "remap_uri", "rewire", "add", "add"])
+                    kind = rng.choice(["chain", "sub", "remap_curie", "remap_uri", "rewire", "add", "add", "discover"])
                     tgt = rng.randrange(1, est + 1)
                     if kind == "chain":
                         idxs = rng.sample(range(1, est + 1), rng.randrange(1, min(3, est) + 1))
@@ -420,6 +420,10 @@ def random_oplists(pid, rng, n):
                     elif kind == "remap_curie":
                         ks = rng.sample(names, rng.randrange(1, min(3, len(names)) + 1))
                         ops.append({"k": "remap_curie", "i": tgt, "m": [[k, rng.choice(names)] for k in ks]})
+                        est += 1
+                    elif kind == "discover":
+                        us = [rng.choice(known_u + ["http://disc.example/a/", "http://disc.example/b_"]) + rng.choice(["1", "x2", "a/b", ""]) for _ in range(rng.randrange(1, 6))]
+                        ops.append({"k": "discover", "i": tgt, "uris": us})
                         est += 1
                     elif kind in ("remap_uri", "rewire"):
                         dom = (known_u if kind == "remap_uri" else known_p) + ["unk"]
